@@ -359,11 +359,37 @@ def rule_default_filling(chk, rid):
     fn = repo.func(CMD, "CommandExecutable.parse_argv")
     t = U(fn).replace('"', "'")
     C = f"{CMD}.CommandExecutable.parse_argv"
-    chk.ob(rid, C, "list(enumerate(self.metadata.arguments))[len(args):]" in t, "only the arguments beyond the supplied tokens are filled", fn, m, key="tail-only")
-    chk.ob(rid, C, "if a['name'] in kwargs" in t and "args.append(kwargs[a['name']])" in t, "keyword extras fill by name first", fn, m, key="kwargs-first")
-    chk.ob(rid, C, "not a.get('multiple', False) and a['name'] != 'context'" in t, "variadic and context arguments are skipped", fn, m, key="skip")
-    chk.ob(rid, C, "if 'default' in a" in t and "args.append(a['default'])" in t, "declared defaults fill next", fn, m, key="default")
-    chk.ob(rid, C, "no default" in t and "len(remainder) != 0" in t and "Too many arguments" in t, "missing without default / surplus tokens raise", fn, m, key="raise")
+    cfg = CFG(fn)
+    Q = lambda x: x.replace('"', "'")
+
+    def lits_at(node_ast):
+        return {(Q(t_), p_) for _, t_, p_, _ in dominating_literals(cfg, cfg.node_of(node_ast))}
+
+    # the filling loop runs over the declared arguments beyond the supplied tokens
+    loops = [f for f in body_walk(fn) if isinstance(f, ast.For) and "self.metadata.arguments" in U(f.iter)]
+    tail_ok = False
+    for f in loops:
+        it = Q(U(f.iter)).replace(" ", "")
+        tail_ok = tail_ok or "self.metadata.arguments[len(args):]" in it or "list(enumerate(self.metadata.arguments))[len(args):]" in it
+    chk.ob(rid, C, tail_ok, "only the arguments beyond the supplied tokens are filled", loops[0] if loops else fn, m, key="tail-only")
+    apps = [c for c in calls_in(fn, tail="append") if call_recv(c) == "args" and len(c.args) == 1]
+    kw_apps = [c for c in apps if Q(U(c.args[0])) == "kwargs[a['name']]"]
+    df_apps = [c for c in apps if Q(U(c.args[0])) == "a['default']"]
+    ok = bool(kw_apps) and all(("a['name'] in kwargs", True) in lits_at(c) for c in kw_apps)
+    chk.ob(rid, C, ok, "keyword extras fill by name first", kw_apps[0] if kw_apps else fn, m, key="kwargs-first")
+    no_default = [r for r in body_walk(fn) if isinstance(r, ast.Raise) and "no default" in U(r)]
+    skip_ok = bool(df_apps) and bool(no_default)
+    for site in df_apps + no_default:
+        L = lits_at(site)
+        skip_ok = skip_ok and ("a.get('multiple', False)", False) in L and ("a['name'] == 'context'", False) in L and ("a['name'] in kwargs", False) in L
+    chk.ob(rid, C, skip_ok, "variadic and context arguments are skipped", df_apps[0] if df_apps else fn, m, key="skip")
+    ok = bool(df_apps) and all(("'default' in a", True) in lits_at(c) for c in df_apps) and bool(no_default) and \
+        all(("'default' in a", False) in lits_at(r) for r in no_default)
+    chk.ob(rid, C, ok, "declared defaults fill next", df_apps[0] if df_apps else fn, m, key="default")
+    too_many = [r for r in body_walk(fn) if isinstance(r, ast.Raise) and "Too many arguments" in U(r)]
+    ok = bool(no_default) and bool(too_many) and all(any(t_ in ("len(remainder) == 0",) and p_ is False or t_ in ("len(remainder)", "remainder") and p_ is True
+                                                         for t_, p_ in lits_at(r)) for r in too_many)
+    chk.ob(rid, C, ok, "missing without default / surplus tokens raise", too_many[0] if too_many else fn, m, key="raise")
     pm = [c for c in calls_in(fn, tail="parse_meta")]
     ok = len(pm) == 1 and U(pm[0].args[0]) == "self.metadata.arguments" and U(pm[0].args[1]) == "args"
     chk.ob(rid, C, ok, "the completed token list is converted by the command's argument parser", fn, m, key="convert")
